@@ -8,7 +8,7 @@ THEOREMS = ["Slock.C10F." + t for t in (
     "C10F_never_decides_partial C10F_fabricated_codes C10F_not_local_partial C10F_refusal_reason C10F_never_decides_violated "
     "C10F_first_text_command_refused_locally C10F_relay_unchanged C10F_relay_binary_unconditional C10F_forward_unchanged "
     "C10F_forward_nothing_else C10F_wills_forwarded_at_close C10F_wills_dropped_without_link C10F_same_outcome C10F_same_outcome_text C10F_one_reply C10F_delivered_spec C10F_one_reply_exactly "
-    "C10F_text_unblocked C10F_one_reply_link_loss_violated C10F_one_reply_rerouted_violated C10F_one_reply_early_violated "
+    "C10F_text_unblocked C10F_one_reply_link_loss_violated C10F_one_reply_rerouted_violated C10F_early_answer_harmless "
     "C10F_late_init_unanswered C10F_init_answer_unattached C10F_role_change C10F_role_change_back C10F_local_exclusive").split()]
 
 ASSUMPTIONS = [
@@ -23,23 +23,22 @@ ASSUMPTIONS = [
     "the leader is abstract in the model: its frames (`r …` events) are read off the wire by the proxy and fed to the model; what the node's own "
     "engine answers when the node IS the leader (`loc`) is outside this model (engine half of C10)",
     "granularity: one event = one complete reaction (request processed / frame relayed / rollback done), observed at quiescence; Write to a link "
-    "whose socket is up succeeds. Two races of the real code show at this granularity and are explicit inputs of the model, set by the harness: "
-    "`re …` (the leader's answer was read before Write recorded the command as latest) is read off the real link object AFTER both goroutines are "
-    "done (the client already holds the relay, which is written after the reader's comparison; the harness waits until latestRequestId shows the "
-    "command, then latestCommandType tells the order) — a stable verdict, not a guess; `rx …` (a frame read from a fresh link before CheckClient "
+    "whose socket is up succeeds. One race of the real code shows at this granularity and is an explicit input of the model, set by the harness: "
+    "`rx …` (a frame read from a fresh link before CheckClient "
     "attached the link object: dropped unseen) is decided by ordering evidence (the relay of a LATER frame of the same link has arrived, the reader "
     "handles frames in order) and only when the link carries no later frame by 3 s of silence. Binary client frames are attributed to events by "
     "(type, RequestId), not by arrival position, so independent streams may interleave freely; a frame no event accounts for is reported "
     "(C10:harness-unattributed-frame). Not modelled: CheckClient racing with a concurrent link loss, the 2 s arbiterWaiter delay (the harness "
     "wakes the manager instead of waiting), idle-link pooling of text connections, will commands (forwarded at Close)",
-    "every fourth case is `strict`: the proxy holds the leader's frames back 20 ms, so no answer can overtake Write's bookkeeping there — an answer "
-    "that leaves the command as the link's latest in such a case is reported (C10:answer-did-not-clear-latest), not excused as the race; a case "
-    "that does not finish within 90 s (node stuck) ends the run with C10:case-hung",
+    "since the repair of TransparencyBinaryClientProtocol.Write (the command is recorded as latest before its bytes leave) an answer that leaves the "
+    "command as the link's latest one is reported in EVERY case (C10:answer-did-not-clear-latest); the `re` input of the model has no effect any more "
+    "(C10F_early_answer_harmless) and the harness no longer produces it; every eighth case has the leader's frames held back 20 ms; a case that does "
+    "not finish within 90 s (node stuck) ends the run with C10:case-hung",
     "a first short text command that the node's own engine refuses with STATE_ERROR is within the statement (refuse or forward): counted as "
     "observation C10:refused-first-text-command, not a monitor failure; C10:no-reply-after-link-loss is an observation (VERIF_TRANS_STRICT off)",
     "C10F_one_reply is proved under OkRun: the client does not reuse a RequestId on a connection; the leader answers a forwarded LOCK/UNLOCK at "
-    "most once and on the link instance it arrived on; no answer overtakes Write's bookkeeping. The two ways the real system leaves OkRun are "
-    "proved as counterexamples (C10F_one_reply_rerouted_violated, C10F_one_reply_early_violated) and monitored",
+    "most once and on the link instance it arrived on. The way the real system leaves OkRun (the leader re-routes a pending answer to the re-opened "
+    "link of a session that announced a client id) is proved as a counterexample (C10F_one_reply_rerouted_violated) and monitored",
     "C10F_same_outcome takes the leader's decision as a function of the forwarded command (`dec`): that the real leader answers a command the "
     "same way whichever connection it arrives on is checked by the monitor (same command replayed directly on a twin key), not proved here"]
 FINISH = {"level": "proof", "assumptions": ASSUMPTIONS}
